@@ -269,4 +269,18 @@ CHECKS = {
         rule="case = one point of the product; states = distinct cases; transitions = 4 per case (scan, dump/pttl, restore, confirm phases); non-trivial = all cases",
         parts=[dict(pkg="./redis-shake", harness=["run"], test="^TestVerif_C16$", shards=16, gomaxprocs=2, budget=dict(quick=75, thorough=1200))],
     ),
+    "C17": dict(
+        level="exploration",
+        engine="seqx (inputs x parallel degrees) + synctest owned-channel schedules",
+        technique="exhaustive enumeration of generated RDB inputs x worker-pool sizes through the real decode pipeline, output parsed back and compared as a multiset with the expected lines; plus every feed/drain order of the real worker function on harness-owned channels",
+        text="Every classic value of the catalogue (all encodings: ziplists with every entry encoding, intsets, zipmap, quicklist, LZF, int strings; binary and invalid-UTF-8 "
+             "keys; expiries; several databases; Lua scripts) is written by rdbgen into files of up to 12 keys and decoded by the real CmdDecode.decode with parallel = 1, "
+             "2, 3, 8. The output is parsed back: the multiset of JSON lines must equal one line per string / list element with index / hash field / set member / zset "
+             "member (score numerically equal), with db, type, expiry and base64 fields decoding to the exact bytes, plus one line per script, nothing else. For the "
+             "worker hand-offs, decoderMain workers (1-3) run on channels the harness owns and every order of feeding entries and draining results is enumerated with "
+             "the workers run to quiescence in between.",
+        note="the internal channel hand-offs of decode() itself are not interceptable without rewriting the function: they are covered by the owned-channel exploration of the worker function and by running the whole pipeline at several parallel degrees (stated limitation); streams and NaN scores are not decodable by design",
+        rule="case = (file, parallel) or (entries, workers, feed/drain order); non-trivial = all (each compares the parsed output with the expected multiset)",
+        parts=[dict(pkg="./redis-shake", harness=["run"], test="^TestVerif_C17$", shards=16, gomaxprocs=4, budget=dict(quick=75, thorough=600))],
+    ),
 }
